@@ -41,6 +41,9 @@ type harnessSpec struct {
 	Setup            func(i *interpreter)
 	WantInit         []string
 	NoCrossVal       bool
+	// Overrides: full SSA name of a function -> name of the harness function (same package) that replaces it
+	// in the symbolic run (environment stubs). Natively the harness must not depend on them.
+	Overrides map[string]string
 }
 
 type checkSpec struct {
@@ -363,6 +366,20 @@ func cmdCheck(args []string) int {
 			ex := NewExplorer(ld.prog, ExploreConfig{Harness: h.Name, Pkg: ld.pkg, Fn: fn, Params: params, Workers: *workers,
 				MaxSteps: maxSteps, PanicIsViolation: !h.PanicOK, BudgetIsViolation: h.BudgetViolation, Goroutine: h.Goroutine,
 				Setup: h.Setup, WantInit: want})
+			if len(h.Overrides) > 0 && h.Setup == nil {
+				ovs := h.Overrides
+				hpkg := ld.pkg
+				h.Setup = func(i *interpreter) {
+					i.overrides = map[string]*ssa.Function{}
+					for target, repl := range ovs {
+						f := hpkg.Func(repl)
+						if f == nil {
+							panic("override function not found: " + repl)
+						}
+						i.overrides[target] = f
+					}
+				}
+			}
 			pool := pools[key]
 			if pool == nil || h.Setup != nil {
 				var err error
